@@ -73,10 +73,14 @@ func (s *DiscoveryStrategy) GetRoutableEndpoints(
 		s.logger.Debug("Discovery refresh disabled, rejecting request",
 			"model", modelName)
 
+		reason := constants.RoutingReasonModelUnavailableNoRefresh
+		if len(modelEndpoints) == 0 {
+			reason = constants.RoutingReasonModelNotFound
+		}
 		return nil, ports.NewRoutingDecision(
 				s.Name(),
 				ports.RoutingActionRejected,
-				constants.RoutingReasonModelUnavailableNoRefresh,
+				reason,
 			), domain.NewModelRoutingError(
 				modelName,
 				s.Name(),
@@ -178,10 +182,14 @@ func (s *DiscoveryStrategy) GetRoutableEndpoints(
 		"original_healthy", len(healthyEndpoints))
 
 	if len(updatedHealthy) == 0 {
+		reason := constants.RoutingReasonNoHealthyAfterDiscovery
+		if len(modelEndpoints) == 0 {
+			reason = constants.RoutingReasonModelNotFound
+		}
 		return nil, ports.NewRoutingDecision(
 				s.Name(),
 				ports.RoutingActionRejected,
-				constants.RoutingReasonNoHealthyAfterDiscovery,
+				reason,
 			), domain.NewModelRoutingError(
 				modelName,
 				s.Name(),
@@ -197,10 +205,16 @@ func (s *DiscoveryStrategy) GetRoutableEndpoints(
 	switch s.options.FallbackBehavior {
 	case constants.FallbackBehaviorNone, constants.FallbackBehaviorCompatibleOnly:
 		// For compatible_only and none, reject if model not found
+		// no endpoint lists the model at all -> "not found" (404); listed, but only by
+		// unhealthy endpoints -> "unavailable" (503)
+		reason := constants.RoutingReasonModelUnavailableAfterDiscovery
+		if len(modelEndpoints) == 0 {
+			reason = constants.RoutingReasonModelNotFound
+		}
 		return nil, ports.NewRoutingDecision(
 				s.Name(),
 				ports.RoutingActionRejected,
-				constants.RoutingReasonModelUnavailableAfterDiscovery,
+				reason,
 			), domain.NewModelRoutingError(
 				modelName,
 				s.Name(),
